@@ -25,6 +25,27 @@ def main():
     assert os.path.abspath(simple_ddl_parser.__file__).startswith(os.path.abspath(tree))
     base = DDLParser("")           # a normal object (may rewrite the tree's own cache: callers use a throw-away tree)
     perturbed = None
+    if mode == "lextab":
+        # an optimized-mode LEXER table of a perturbed lexer (STRING_BASE accepts fewer characters), as an older release
+        # that cached its lexer would have left in the package directory.  The unchanged library never reads such a file.
+        from ply import lex
+        orig = DDLParser.t_STRING_BASE
+
+        def t_STRING_BASE(self, t):
+            return orig(self, t)
+        t_STRING_BASE.__doc__ = r"((\')([a-zA-Z_,`0-9:><\=\-\+\~\%$\!(){}\[\]\/\\\"\#\*&^|?;]*)(\')){1}"
+        t_STRING_BASE.__code__ = t_STRING_BASE.__code__.replace(co_firstlineno=orig.__code__.co_firstlineno, co_filename=orig.__code__.co_filename)
+        Sub = type("OlderLexer", (DDLParser,), {"t_STRING_BASE": t_STRING_BASE})
+        obj = Sub.__new__(Sub)
+        obj.__dict__.update(base.__dict__)
+        try:
+            lex.lex(object=obj, optimize=True, lextab="lextab", outputdir=outdir, errorlog=lex.NullLogger())
+        except Exception as e:  # noqa
+            print(json.dumps({"error": "lextab generation failed: %r" % (e,)}))
+            return 1
+        ok = os.path.exists(os.path.join(outdir, "lextab.py"))
+        print(json.dumps({"lextab": ok, "error": None if ok else "no lextab.py written"}))
+        return 0 if ok else 1
     if mode == "fresh":
         obj = base
         yacc.yacc(module=obj, debug=False, write_tables=True, outputdir=outdir, tabmodule="vfresh_parsetab",
